@@ -388,7 +388,7 @@ PLAN["C17"]["rule"] += ("; TestC17Faults: set-rebuilding (on/off) in a victim pr
 PLAN["C08"]["rule"] += "; the rebuilding flag volume.meta persists is part of the compared state; plain opens of existing files are fault points (EIO)"
 
 PLAN["C02"]["quick"]["tests"][0]["shards"] = 12
-PLAN["C02"]["quick"]["tests"].append({"run": "TestC02Restart", "shards": 4, "checks": 30, "timeout": 130})
+PLAN["C02"]["quick"]["tests"].append({"run": "TestC02Restart", "shards": 4, "checks": 40, "timeout": 130})
 PLAN["C02"]["thorough"]["tests"][0]["shards"] = 12
 PLAN["C02"]["thorough"]["tests"].append({"run": "TestC02Restart", "shards": 4, "checks": 700, "timeout": 840})
 PLAN["C02"]["rule"] += ("; a third of the injected failures are 'diskerr': the replica's own write to its head file fails (its descriptor is swapped for a read-only one during the call), so the failure "
@@ -409,3 +409,10 @@ PLAN["C11"]["thorough"]["tests"][0]["shards"] = 8
 PLAN["C11"]["thorough"]["tests"].append({"run": "TestC11Faults", "shards": 3, "checks": 200, "timeout": 840, "shrink": "60s"})
 PLAN["C11"]["rule"] += ("; TestC11Faults: a removal in a victim process during which one file-system call fails (strace, as in C08); when the replica is still running afterwards it removes the child of that "
                         "snapshot as well (the cleaner's next candidate) and closes: the reopened directory serves the live image and every other retained user snapshot unchanged")
+
+PLAN["C05"]["quick"]["tests"][0]["shards"] = max(1, PLAN["C05"]["quick"]["tests"][0]["shards"] - 4)
+PLAN["C05"]["quick"]["tests"].append({"run": "TestC05Restart", "shards": 4, "checks": 40, "timeout": 130})
+PLAN["C05"]["thorough"]["tests"][0]["shards"] = max(1, PLAN["C05"]["thorough"]["tests"][0]["shards"] - 3)
+PLAN["C05"]["thorough"]["tests"].append({"run": "TestC05Restart", "shards": 3, "checks": 700, "timeout": 840})
+PLAN["C05"]["rule"] += ("; TestC05Restart: faulty write histories (a third of the failures are the replica's own disk failing) followed by a stop of every replica and a restart of the volume with the replicas "
+                        "registering in a generated order: every acknowledged write that a majority of RF held is served again - a replica detached for failing a write does not come back as an up-to-date copy")
